@@ -3,7 +3,7 @@
 # Apply a seeded change to a scratch worktree of /repo (never to /repo itself), run the property's
 # check against that worktree, undo the change. Evidence files in /verif are left untouched.
 set -u
-P="$1"; PROP="$2"; TIER="${3:-quick}"; W=/tmp/verif-mutest-repo
+P="$1"; PROP="$2"; TIER="${3:-quick}"; W="${VERIF_MUT_W:-/tmp/verif-mutest-repo}"
 HEAD=$(git -C /repo rev-parse HEAD)
 if [ ! -d "$W" ]; then git -C /repo worktree add -q --detach "$W" "$HEAD" || exit 2; fi
 git -C "$W" checkout -q -- . && git -C "$W" checkout -q --detach "$HEAD" || exit 2
